@@ -114,6 +114,14 @@ PLAN = {
         "assumptions": ASSUME_X + ["the boundary is random: 'does not occur in any part's data' is checked on every generated form, not proved for all"],
         "replay_runner": "mpart", "replay_trace": "Trace_Multipart",
     },
+    "C16": {
+        "mc": [],
+        "families": [{"gen": ("tlc", {"name": "settings-ops", "tla": "MC_Settings.tla", "cfg": "MC_Settings5.cfg", "workers": 8}),
+                      "runner": "settings", "trace": "Trace_Settings"}],
+        "rule": "every sequence of 5 operations over {new session, clone, session setters, session header set/append, create builder, builder setters, builder header set/append, prepare} on 2 sessions and 2 builders with colliding header names, enumerated by TLC from SettingsArc.tla (isolation checked as a TLC property); each sequence is executed on the real API and after every operation the effective settings and header fields of every live object are compared with the contract",
+        "assumptions": ["settings without wire-visible effect are read through the guarded snapshot accessor (hook H4)"],
+        "replay_runner": "settings", "replay_trace": "Trace_Settings",
+    },
     "C12": {
         "mc": [],
         "families": [{"gen": ("tlc", {"name": "tunnel", "tla": "MC_Tunnel.tla", "cfg": "MC_Tunnel.cfg", "workers": 8}),
